@@ -26,7 +26,11 @@ impl Tier {
     }
 }
 
-pub const VERIF_ROOT: &str = "/verif";
+/// Output root (evidence/, replays/, known_findings.json): /verif unless VERIF_OUT is set (used only
+/// while developing the harness against a scratch copy).
+pub fn verif_root() -> String {
+    std::env::var("VERIF_OUT").unwrap_or_else(|_| "/verif".to_string())
+}
 
 #[derive(Clone, Debug)]
 pub struct Violation {
@@ -65,7 +69,7 @@ pub struct KnownFinding {
 }
 
 pub fn load_known_findings() -> Vec<KnownFinding> {
-    let p = format!("{}/known_findings.json", VERIF_ROOT);
+    let p = format!("{}/known_findings.json", verif_root());
     let Ok(s) = std::fs::read_to_string(&p) else { return vec![] };
     let Ok(v) = serde_json::from_str::<Value>(&s) else {
         eprintln!("machinery: cannot parse {}", p);
@@ -196,7 +200,7 @@ impl Ctx {
         let mut lines = vec![];
         let mut known_lines: BTreeMap<String, String> = BTreeMap::new();
         let mut listed_keys = 0u64;
-        let _ = std::fs::create_dir_all(format!("{}/replays", VERIF_ROOT));
+        let _ = std::fs::create_dir_all(format!("{}/replays", verif_root()));
         let mut idx = 0;
         for (key, count) in &g.violation_keys {
             let kf = known.iter().find(|k| k.property == self.id && k.status == "known" && key_matches(&k.key, key));
@@ -216,7 +220,7 @@ impl Ctx {
             if idx > 10 {
                 break;
             }
-            let path = format!("{}/replays/{}-{}.json", VERIF_ROOT, self.id, idx);
+            let path = format!("{}/replays/{}-{}.json", verif_root(), self.id, idx);
             let body = json!({"property": self.id, "key": v.key, "what": v.what, "replay": v.replay});
             let _ = std::fs::write(&path, serde_json::to_string_pretty(&body).unwrap());
             lines.push(format!("VIOLATION property={} replay={}", self.id, path));
@@ -235,8 +239,8 @@ impl Ctx {
             "known_finding_hits": listed_keys,
             "machinery_failures": g.machinery,
         });
-        let _ = std::fs::create_dir_all(format!("{}/evidence", VERIF_ROOT));
-        let path = format!("{}/evidence/{}.json", VERIF_ROOT, self.id);
+        let _ = std::fs::create_dir_all(format!("{}/evidence", verif_root()));
+        let path = format!("{}/evidence/{}.json", verif_root(), self.id);
         if let Err(e) = std::fs::write(&path, serde_json::to_string_pretty(&ev).unwrap()) {
             eprintln!("machinery: cannot write {}: {}", path, e);
             return 2;
